@@ -9,7 +9,7 @@ from replay import scenarios
 from replay.native import repo_import
 
 
-def simple_adapter(seed=0, n_sensors=2, k=1, config_kwargs=None, noise_scale=1.0):
+def simple_adapter(seed=0, n_sensors=2, k=1, config_kwargs=None, noise_scale=1.0, disparate=False, calibrated=False):
     """x' = x + dt*v (+ dt*dt*a), v' = v + dt*a with sensors inserted in NON-alphabetical order."""
     from replay import shim
 
@@ -20,12 +20,21 @@ def simple_adapter(seed=0, n_sensors=2, k=1, config_kwargs=None, noise_scale=1.0
     sm = {x: x + dt * v, v: v + dt * a if k else v}
     if k == 2:
         sm[x] = sm[x] + dt * b
-    model = ui.Model(dt=dt, state={x, v}, control=control, state_model=sm)
-    sensor_models = {"velocity": {"v": v}}
+    # calibrated: a calibrated model (a drag coefficient in the dynamics, a scale and a bias in the velocity sensor)
+    drag, scale, bias = (ui.Symbol(n) for n in ("drag", "scale", "bias"))
+    if calibrated:
+        sm[v] = sm[v] - dt * drag * v
+    model = ui.Model(dt=dt, state={x, v}, control=control, state_model=sm, **({"calibration": {drag, scale, bias}} if calibrated else {}))
+    sensor_models = {"velocity": {"v": (scale * v + bias) if calibrated else v}}
     sensor_noises = {"velocity": {"v": 0.5}}
     if n_sensors >= 2:
-        sensor_models = {"velocity": {"v": v}, "position": {"x": x, "xv": x + v}}
+        sensor_models = {"velocity": dict(sensor_models["velocity"]), "position": {"x": x, "xv": x + v}}
         sensor_noises = {"position": {"xv": 1.5, "x": 2.0}, "velocity": {"v": 0.5}}
+    if disparate and n_sensors >= 2:
+        # one reading of the two-reading sensor lives at a scale 1e-8 of the other (micro-radians next to metres): the innovation
+        # covariance is positive definite with condition number ~1e16, and its FULL inverse defines the NIS
+        sensor_models["position"] = {"x": 1e-8 * x, "xv": x + v}
+        sensor_noises["position"] = {"xv": 1.5, "x": 1e-17}
     if n_sensors >= 3:
         # three sensors of three different sizes (3, 2, 1 in key order), none equal to the number of controls unless k says so
         sensor_models["combined"] = {"c2": 2 * x, "c1": x - v, "c3": 3 * v}
@@ -36,7 +45,7 @@ def simple_adapter(seed=0, n_sensors=2, k=1, config_kwargs=None, noise_scale=1.0
         pn = {c: v * noise_scale for c, v in pn.items()}
         sensor_noises = {s: {r: v * noise_scale for r, v in m.items()} for s, m in sensor_noises.items()}
     cfg = py.Config(**(config_kwargs or {"innovation_filtering": None}))
-    est = py.SklearnEKFAdapter.Create(model, pn, sensor_models, sensor_noises, config=cfg)
+    est = py.SklearnEKFAdapter.Create(model, pn, sensor_models, sensor_noises, **({"calibration_map": {scale: 2.0, drag: 0.125, bias: 0.25}} if calibrated else {}), config=cfg)
     return py, ui, est, {"controls": sorted(c.name for c in control), "sensors": {s: sorted(m) for s, m in sensor_models.items()}}
 
 
@@ -51,11 +60,11 @@ def snapshot(est):
     return {"symbolic_model": id(p["symbolic_model"]), "sensor_models": copy.deepcopy({k: {r: str(e) for r, e in m.items()} for k, m in p["sensor_models"].items()}), "calibration_map": copy.deepcopy(p["calibration_map"]), "config": p["config"], "process_noise": {str(k): float(v) for k, v in p["process_noise"].items()}, "sensor_noises": {k: {str(r): float(v) for r, v in m.items()} for k, m in p["sensor_noises"].items()}}
 
 
-def fit_problems(seed=0, rows=8, n_sensors=2, k=1):
+def fit_problems(seed=0, rows=8, n_sensors=2, k=1, calibrated=False):
     """Run the real fit; the outcome must be MinimizationFailure or a retuned estimator (C17)."""
     import math
 
-    py, ui, est, info = simple_adapter(seed, n_sensors, k)
+    py, ui, est, info = simple_adapter(seed, n_sensors, k, calibrated=calibrated)
     exc = repo_import("formak.exceptions")
     X = data_for(info, rows, seed)
     before = snapshot(est)
@@ -87,14 +96,16 @@ def fit_problems(seed=0, rows=8, n_sensors=2, k=1):
     return problems, info
 
 
-def transform_problems(seed=0, rows=5, n_sensors=2, k=1, k_edit=None, integer_data=False, config_extra=None, noise_scale=1.0):
+def transform_problems(seed=0, rows=5, n_sensors=2, k=1, k_edit=None, integer_data=False, config_extra=None, noise_scale=1.0, disparate=False, calibrated=False):
     """transform / mahalanobis / score vs running the exported filter by hand (predict dt=0.1, sensors in key order).
     integer_data: the same check on a data matrix of INTEGER dtype (a finite data matrix like any other; the by-hand run uses its values as floats)."""
     import math
 
     # config_extra: further Config fields at NON-default values (the adapter's step is fixed, whatever max_dt_sec says)
-    py, ui, est, info = simple_adapter(seed, n_sensors, k, {"innovation_filtering": k_edit, **(config_extra or {})}, noise_scale=noise_scale)
+    py, ui, est, info = simple_adapter(seed, n_sensors, k, {"innovation_filtering": k_edit, **(config_extra or {})}, noise_scale=noise_scale, disparate=disparate, calibrated=calibrated)
     X = data_for(info, rows, seed)
+    if disparate:
+        X[:, len(info["controls"])] *= 1e-8  # the fine reading's values are of its own scale
     Xin = X
     if integer_data:
         Xin = np.rint(X * 3).astype(np.int64)
@@ -237,13 +248,13 @@ def fit_with_failing_optimiser(seed=0):
     return [], info
 
 
-def fit_with_succeeding_optimiser(seed=0, config_kwargs=None):
+def fit_with_succeeding_optimiser(seed=0, config_kwargs=None, calibrated=False):
     """D-opt boundary, success side: the optimiser is replaced by a stub that calls the objective twice and reports success at a
     point near x0, so fit ALWAYS returns; what it returns must have the model, sensor models, calibration and CONFIGURATION it
     started with (every Config field given a non-default value)."""
     config_kwargs = config_kwargs or {"common_subexpression_elimination": False, "extra_validation": True, "max_dt_sec": 0.05, "innovation_filtering": 4.0}
     try:
-        py, ui, est, info = simple_adapter(seed, 2, 1, config_kwargs=config_kwargs)
+        py, ui, est, info = simple_adapter(seed, 2, 1, config_kwargs=config_kwargs, calibrated=calibrated)
     except Exception as e:
         return [f"constructing the estimator with Config({config_kwargs}) raised {type(e).__name__}: {(str(e).splitlines() or [''])[0][:100]}"], {}
     X = data_for(info, 6, seed)
